@@ -186,6 +186,8 @@ def attr_menu(S, sched):
         m += [
             {'estimate': 4, 'start': S - 5 * DAY}, {'estimate': 4, 'start': S + DAY},
             {'estimate': 4, 'start': S - 6 * DAY, 'end': S - 4 * DAY}, {'estimate': 4, 'end': S - 4 * DAY},
+            # little work after a fixed start late in the day: the end encodes used capacity from midnight
+            {'estimate': 0.5, 'start': S + DAY + timedelta(hours=10, minutes=30)}, {'estimate': 0.5, 'start': S - 5 * DAY + timedelta(hours=15)},
         ]
     return m
 
@@ -218,11 +220,11 @@ def L2(tier, scheds=('fwd', 'bwd')):
                     combos = list(itertools.product(range(len(menu)), repeat=len(lv)))
                     cals = ['none']
                 else:
-                    red = [0, 3, 7, 9, 10] + ([12, 14] if sched == 'fwd' else [])
+                    red = [0, 3, 7, 9, 10] + ([12, 14, 16] if sched == 'fwd' else [])
                     combos = list(itertools.product(red, repeat=len(lv)))
                     cals = CAL_MENU if tier == 'thorough' else ['none', 'sparse', 'direct']
                 if tier == 'quick' and len(lv) == 2 and si < 2:
-                    red = [0, 1, 3, 7, 8, 9, 10, 11] + ([12, 13, 14, 15] if sched == 'fwd' else [])
+                    red = [0, 1, 3, 7, 8, 9, 10, 11] + ([12, 13, 14, 15, 16, 17] if sched == 'fwd' else [])
                     combos = list(itertools.product(red, repeat=len(lv)))
                 for combo in combos:
                     attrs = {i: dict(menu[c], resource='A') for i, c in zip(lv, combo)}
